@@ -547,11 +547,34 @@ def commas_grammar(col, length, prefix):
     col.exhaustive[sub] = complete
 
 
+def commas_format_tokens(col):
+    """Deterministic: every malformed construction with printf / str.format
+    tokens in the offending text (and the same tokens in well-formed lists,
+    which must come back verbatim)."""
+    sub = 'commas/malformed'
+    tokens = ('%s', '%d', '50%d', '%(k)s', '%', '%%', '{}', '{0}', '{k}',
+              'a%sb', '%r', '%5.2f', '%c', '%x', '%(', '%)')
+    for t in tokens:
+        for bad in ('"' + t, t + '"', t + '"' + t, '"' + t + '"' + t,
+                    '"x"' + t, t + ',,b', ',' + t, t + ',', '"' + t + '\\"'):
+            for pre in ('', 'ok,', '"q,q",'):
+                check_commas_text(col, sub, pre + bad, must='err')
+        check_roundtrip(col, 'commas/roundtrip', [t, 'x', t + ',' + t],
+                        'min')
+        check_roundtrip(col, 'commas/roundtrip', [t], 'all')
+    col.exhaustive.setdefault(sub, False)
+
+
 def commas_malformed(col, seed, max_examples):
     from hypothesis import strategies as st
     sub = 'commas/malformed'
     plain_ch = st.sampled_from('ab-_.:/\'=1')
-    word = st.text(alphabet=plain_ch, min_size=1, max_size=4)
+    # words also carry printf-style tokens and braces: an error path that
+    # formats the offending value must still end in ValueError
+    word = st.one_of(
+        st.text(alphabet=plain_ch, min_size=1, max_size=4),
+        st.sampled_from(['%s', '%d', '50%d', '%(k)s', '%', '%%', '{}', '{0}',
+                         '{k}', 'a%sb', '%r', '%5.2f', '%c', '%x']))
     inner = st.text(alphabet=st.one_of(plain_ch, st.sampled_from(', ')),
                     max_size=4)
     good_item = st.text(alphabet=st.one_of(plain_ch,
@@ -626,6 +649,8 @@ def tasks(tier, seed):
                         seed=core.derive_seed(seed, ID, 'rt', i),
                         max_examples=rt_n))
     for i in range(mal_shards):
+        if i == 0:
+            out.append(Task('commas/malformed', commas_format_tokens))
         out.append(Task('commas/malformed', commas_malformed,
                         seed=core.derive_seed(seed, ID, 'mal', i),
                         max_examples=mal_n))
